@@ -191,6 +191,22 @@ func (o *ObsC09) AfterOp(x *Exec, i int, op Op, res *OpResult) *vcore.Failure {
 			return vcore.Failf("c09:reload:stale_object", "after a reload the FloatingIP object %s still exists although the IP is not configured", ip)
 		}
 	}
+	if x.LastQuiescent != nil && op.K == "reload" && !res.Concurrent {
+		// lossless: a reload running alone keeps every allocation whose IP is still configured, owner and policy unchanged
+		for ip, before := range x.LastQuiescent.Alloc {
+			if _, ok := conf[ip]; !ok {
+				continue
+			}
+			after, ok := alloc[ip]
+			if !ok {
+				return vcore.Failf("c09:reload:lost", "a reload dropped the allocation of %s (owner %q) although the IP is still configured", ip, before.Key)
+			}
+			if after.Key != before.Key || after.Policy != before.Policy {
+				return vcore.Failf("c09:reload:changed", "a reload changed the allocation of %s from %q (policy %d) to %q (policy %d)", ip,
+					before.Key, before.Policy, after.Key, after.Policy)
+			}
+		}
+	}
 	if x.LastQuiescent != nil {
 		kept, dropped := 0, 0
 		for ip := range x.LastQuiescent.Alloc {
